@@ -1,5 +1,193 @@
-import Dashu.Model.Serde.Num
+import Dashu.Proofs.Serde.Text
+import Dashu.Props.C01
+/-
+  C19 — Results do not depend on word size, build features or serialization medium.
+
+  Clause (1), word size: the refinement theorems of C01 hold for every word size `W ≥ 1`; the
+  corollaries below say that two builds with different `W` compute the same mathematical value (and
+  the same panic) from the same mathematical inputs.  Features and profile do not occur in any model
+  definition; that the real builds agree is observed by the correspondence (8 configurations).
+
+  Clause (3), serialization: the formats of `Model/Serde` contain no word size; `decode (encode x) = x`;
+  every decoder maps an arbitrary stream to a canonical value or to an error.
+
+  Clause (2), log2 bounds of the no_std estimator: `Props/C19Log.lean` (kernel decision over all
+  `u16` inputs), audited together with this file.
+-/
 namespace Dashu.Props.C19
-open Dashu.Model.Serde
-theorem placeholder : ofLeBytes [] = 0 := rfl
+open Dashu.Model Dashu.Model.Serde
+
+-- ====================================================================== (1) word size
+
+/-- UBig `+`: any two word sizes, any call forms -/
+theorem word_size_independent_u_add (W₁ W₂ : Nat) (h₁ : 1 ≤ W₁) (h₂ : 1 ≤ W₂) (x y f₁ f₂ : Nat) :
+    ((ofNat W₁ x).add W₁ (ofNat W₁ y) f₁).value W₁ = ((ofNat W₂ x).add W₂ (ofNat W₂ y) f₂).value W₂ := by
+  rw [(C01.u_add_sub_of_nat W₁ (by omega) x y f₁ false).1, (C01.u_add_sub_of_nat W₂ (by omega) x y f₂ false).1]
+
+/-- UBig `-`: the same value, or the same `NegativeUBig` panic, in both builds -/
+theorem word_size_independent_u_sub (W₁ W₂ : Nat) (h₁ : 1 ≤ W₁) (h₂ : 1 ≤ W₂) (x y : Nat) (rv₁ rv₂ : Bool) :
+    (y ≤ x → ∃ r₁ r₂, (ofNat W₁ x).sub W₁ (ofNat W₁ y) rv₁ = .ok r₁ ∧ (ofNat W₂ x).sub W₂ (ofNat W₂ y) rv₂ = .ok r₂ ∧
+      r₁.value W₁ = r₂.value W₂) ∧
+    (x < y → (ofNat W₁ x).sub W₁ (ofNat W₁ y) rv₁ = .error .negativeUBig ∧
+      (ofNat W₂ x).sub W₂ (ofNat W₂ y) rv₂ = .error .negativeUBig) := by
+  have a := C01.u_add_sub_of_nat W₁ (by omega) x y 0 rv₁
+  have b := C01.u_add_sub_of_nat W₂ (by omega) x y 0 rv₂
+  constructor
+  · intro h
+    obtain ⟨r₁, e₁, v₁⟩ := a.2.1 h
+    obtain ⟨r₂, e₂, v₂⟩ := b.2.1 h
+    exact ⟨r₁, r₂, e₁, e₂, by rw [v₁, v₂]⟩
+  · intro h; exact ⟨a.2.2 h, b.2.2 h⟩
+
+/-- UBig `*` and squaring -/
+theorem word_size_independent_u_mul (W₁ W₂ : Nat) (h₁ : 3 ≤ W₁) (h₂ : 3 ≤ W₂) (x y : Nat) :
+    ((ofNat W₁ x).mul W₁ (ofNat W₁ y)).value W₁ = ((ofNat W₂ x).mul W₂ (ofNat W₂ y)).value W₂ ∧
+    ((ofNat W₁ x).sqr W₁).value W₁ = ((ofNat W₂ x).sqr W₂).value W₂ := by
+  have ox₁ := C01.of_nat_exact W₁ (by omega) x; have oy₁ := C01.of_nat_exact W₁ (by omega) y
+  have ox₂ := C01.of_nat_exact W₂ (by omega) x; have oy₂ := C01.of_nat_exact W₂ (by omega) y
+  constructor
+  · rw [(C01.u_mul_exact W₁ (by omega) _ _ ox₁.2 oy₁.2).1, (C01.u_mul_exact W₂ (by omega) _ _ ox₂.2 oy₂.2).1,
+      ox₁.1, oy₁.1, ox₂.1, oy₂.1]
+  · rw [(C01.u_sqr_exact W₁ (by omega) _ ox₁.2).1, (C01.u_sqr_exact W₂ (by omega) _ ox₂.2).1, ox₁.1, ox₂.1]
+
+/-- IBig `+`, `-`, `*` -/
+theorem word_size_independent_i_ring (W₁ W₂ : Nat) (h₁ : 3 ≤ W₁) (h₂ : 3 ≤ W₂) (x y : Int) (f₁ f₂ : Nat) :
+    (ibigAdd W₁ (.ofInt W₁ x) (.ofInt W₁ y) f₁).value W₁ = (ibigAdd W₂ (.ofInt W₂ x) (.ofInt W₂ y) f₂).value W₂ ∧
+    (ibigSub W₁ (.ofInt W₁ x) (.ofInt W₁ y) f₁).value W₁ = (ibigSub W₂ (.ofInt W₂ x) (.ofInt W₂ y) f₂).value W₂ ∧
+    (ibigMul W₁ (.ofInt W₁ x) (.ofInt W₁ y)).value W₁ = (ibigMul W₂ (.ofInt W₂ x) (.ofInt W₂ y)).value W₂ := by
+  have a := C01.i_add_sub_of_int W₁ (by omega) x y f₁
+  have b := C01.i_add_sub_of_int W₂ (by omega) x y f₂
+  have ox₁ := C01.of_int_exact W₁ (by omega) x; have oy₁ := C01.of_int_exact W₁ (by omega) y
+  have ox₂ := C01.of_int_exact W₂ (by omega) x; have oy₂ := C01.of_int_exact W₂ (by omega) y
+  refine ⟨by rw [a.1, b.1], by rw [a.2, b.2], ?_⟩
+  rw [(C01.i_mul_exact W₁ (by omega) _ _ ox₁.2 oy₁.2).1, (C01.i_mul_exact W₂ (by omega) _ _ ox₂.2 oy₂.2).1,
+    ox₁.1, oy₁.1, ox₂.1, oy₂.1]
+
+/-- the two word sizes the builds use -/
+example (x y : Int) :
+    (ibigMul 64 (.ofInt 64 x) (.ofInt 64 y)).value 64 = (ibigMul 32 (.ofInt 32 x) (.ofInt 32 y)).value 32 :=
+  (word_size_independent_i_ring 64 32 (by decide) (by decide) x y 0 0).2.2
+
+-- ====================================================================== (3) serialization: bytes
+
+/-- `UBig::from_le_bytes (to_le_bytes n) = n`; the byte string is a function of the value alone
+    (`leBytes` has no word-size parameter), minimal (no most-significant zero byte) -/
+theorem le_bytes_round_trip (n : Nat) :
+    ofLeBytes (leBytes n) = n ∧ isBytes (leBytes n) ∧ (leBytes n).getLast? ≠ some 0 :=
+  ⟨ofLeBytes_leBytes n, leBytes_isBytes n, leBytes_getLast_ne_zero n⟩
+
+/-- decoding accepts most-significant zero bytes and still yields the canonical number -/
+theorem le_bytes_leading_zeros (bs : Bytes) : ofLeBytes (bs ++ [0]) = ofLeBytes bs := ofLeBytes_append_zero bs
+
+-- ====================================================================== (3) binary medium
+
+/-- UBig: decode ∘ encode = id, and exactly the encoding is consumed.  (Hypothesis: the byte
+    length fits the `usize` length prefix — true of every value that fits in memory.) -/
+theorem ubig_binary_round_trip (n : Nat) (rest : Bytes) (h : (leBytes n).length < 2 ^ 64) :
+    decU (encU n ++ rest) = some (n, rest) := decU_encU n rest h
+
+/-- IBig: the sign survives through the parity of the payload length -/
+theorem ibig_binary_round_trip (z : Int) (rest : Bytes) (h : (ibigPayload z).length < 2 ^ 64) :
+    decI (encI z ++ rest) = some (z, rest) := decI_encI z rest h
+
+example : (ibigPayload (-256)).length < 2 ^ 64 ∧ encI (-256) = [3, 0, 1, 0] := by
+  have h : leBytes 256 = [0, 1] := by simp [leBytes]
+  constructor
+  · simp [ibigPayload, h]
+  · simp [encI, ibigPayload, h, pcBytes, varintEnc]
+
+/-- an all-zero payload of odd length ("negative zero") decodes to the number 0 -/
+theorem ibig_no_negative_zero (b : Bytes) (h : ofLeBytes b = 0) : ibigOfPayload b = 0 :=
+  Dashu.Model.Serde.ibig_no_negative_zero b h
+
+/-- RBig: a reduced fraction comes back unchanged -/
+theorem rbig_binary_round_trip (q : QVal) (rest : Bytes) (hq : QReduced q)
+    (h1 : (ibigPayload q.num).length < 2 ^ 64) (h2 : (leBytes q.den).length < 2 ^ 64) :
+    decQ (encQ q ++ rest) = some (q, rest) := decQ_encQ q rest hq h1 h2
+
+/-- Relaxed: a fraction without a common factor 2 comes back unchanged -/
+theorem relaxed_binary_round_trip (q : QVal) (rest : Bytes) (hq : QRelaxed q)
+    (h1 : (ibigPayload q.num).length < 2 ^ 64) (h2 : (leBytes q.den).length < 2 ^ 64) :
+    decX (encQ q ++ rest) = some (q, rest) := decX_encQ q rest hq h1 h2
+
+example : QRelaxed ⟨-6, 9⟩ ∧ ¬ QReduced ⟨-6, 9⟩ := by
+  constructor
+  · refine ⟨by decide, by decide, by decide⟩
+  · intro h; exact absurd h.2 (by decide)
+
+/-- Repr<B>: a canonical representation (finite normalised, zero, or an infinity) comes back
+    unchanged -/
+theorem repr_binary_round_trip (B : Nat) (v : FVal) (rest : Bytes) (hv : FCanon B v)
+    (h1 : (ibigPayload v.signif).length < 2 ^ 64) :
+    decR B (encR v ++ rest) = some (v, rest) := decR_encR B v rest hv h1
+
+/-- FBig<R,B>: representation and precision come back unchanged -/
+theorem fbig_binary_round_trip (B : Nat) (v : FPVal) (rest : Bytes) (hv : FPCanon B v)
+    (h1 : (ibigPayload v.signif).length < 2 ^ 64) (hp : v.prec < 2 ^ 64) :
+    decF B (encF v ++ rest) = some (v, rest) := decF_encF B v rest hv h1 hp
+
+example : FCanon 10 ⟨-1234, -2⟩ ∧ FCanon 10 ⟨0, 1⟩ ∧ ¬ FCanon 10 ⟨1230, 0⟩ := by
+  refine ⟨⟨by decide, by decide, by decide⟩, ⟨by decide, by decide, by decide⟩, ?_⟩
+  intro h; exact absurd (h.2.1 (by decide)) (by decide)
+
+/-- arbitrary bytes → RBig: in lowest terms with a positive denominator, or an error -/
+theorem rbig_binary_decode_canonical (s : Bytes) (q : QVal) (r : Bytes) (h : decQ s = some (q, r)) : QReduced q :=
+  decQ_canonical s q r h
+
+/-- arbitrary bytes → Relaxed: positive denominator, no common factor 2, zero as 0/1, or an error -/
+theorem relaxed_binary_decode_canonical (s : Bytes) (q : QVal) (r : Bytes) (h : decX s = some (q, r)) : QRelaxed q :=
+  decX_canonical s q r h
+
+/-- arbitrary bytes → Repr<B>: normalised (or zero / infinity) with an in-range exponent, or an error -/
+theorem repr_binary_decode_canonical (B : Nat) (hB : 2 ≤ B) (s : Bytes) (v : FVal) (r : Bytes)
+    (h : decR B s = some (v, r)) : FCanon B v := decR_canonical B hB s v r h
+
+/-- arbitrary bytes → FBig<R,B>: additionally `digits ≤ precision` unless unlimited, or an error -/
+theorem fbig_binary_decode_canonical (B : Nat) (hB : 2 ≤ B) (s : Bytes) (v : FPVal) (r : Bytes)
+    (h : decF B s = some (v, r)) : FPCanon B v := decF_canonical B hB s v r h
+
+/-! The three places where the code *as it is* (`…AsIs` mirrors) breaks the statements above; the
+    matching entries of `known_findings.jsonl` absorb exactly these input classes. -/
+
+/-- as-is: numerator 1 (bytes `01 01`… here `-1`), denominator empty ⇒ `-1/0` -/
+theorem rbig_zero_denominator_counterexample : ∃ q r, decQAsIs [1, 1, 0] = some (q, r) ∧ ¬ QReduced q :=
+  decQAsIs_counterexample
+
+/-- as-is: significand 12345, precision 2 is accepted -/
+theorem fbig_precision_counterexample :
+    ∃ v r, decFAsIs 10 [2, 0x39, 0x30, 0, 2] = some (v, r) ∧ ¬ FPCanon 10 v := decFAsIs_counterexample
+
+/-- as-is: `+inf` (stored and serialized as `(0, 1)`) is read back as the number zero -/
+theorem repr_infinity_counterexample : encR ⟨0, 1⟩ = [0, 2] ∧ decRAsIs 2 [0, 2] = some (⟨0, 0⟩, []) :=
+  ⟨encR_infinity, decRAsIs_infinity⟩
+
+-- ====================================================================== (3) human-readable medium
+
+/-- a text of plain characters survives JSON quoting -/
+theorem json_string_round_trip (s : Bytes) (h : ∀ c ∈ s, plainChar c) : jsonUnquote (jsonQuote s) = some s :=
+  jsonUnquote_jsonQuote s h
+
+theorem ubig_text_round_trip (n : Nat) : unjsonU (jsonU n) = some n := unjsonU_jsonU n
+
+theorem ibig_text_round_trip (z : Int) : unjsonI (jsonI z) = some z := unjsonI_jsonI z
+
+/-- arbitrary text → RBig / Relaxed / Repr: canonical or an error -/
+theorem rbig_text_decode_canonical (s : Bytes) (q : QVal) (h : unjsonQ s = some q) : QReduced q :=
+  unjsonQ_canonical s q h
+
+theorem relaxed_text_decode_canonical (s : Bytes) (q : QVal) (h : unjsonX s = some q) : QRelaxed q :=
+  unjsonX_canonical s q h
+
+theorem repr_text_decode_canonical (B : Nat) (hB : 2 ≤ B) (s : Bytes) (v : FVal) (h : unjsonR B s = some v) :
+    FCanon B v := unjsonR_canonical B hB s v h
+
+/-
+  Not proved (explored by the correspondence only):
+    theorem rbig_text_round_trip_full (q) (hq : QReduced q) : unjsonQ (jsonQ q) = some q
+    theorem repr_text_round_trip_full (B v) (hv : FCanon B v) (hfin : v.signif ≠ 0 ∨ v.exp = 0) :
+        unjsonR B (jsonR B v) = some v
+  Reason: needs the inversion of the positional float layout of `fmt_round` by `from_str_native`
+  (digit counting across the radix point); the generator runs these round trips for bases 2, 7, 10, 16.
+-/
+
 end Dashu.Props.C19
